@@ -2,8 +2,26 @@
 
 Correspondence: navis' geodesic matrices / point distances / root distances / distal-to relation /
 cable length / adjacency / segments / small segments vs the Lean definitions (walk parent links, sum
-integer edge lengths).  Oracle: Lean checkers `segmentsOKB` / `smallSegmentsOKB` on navis' own lists."""
-import warnings, random
+integer edge lengths) AND vs the as-written models instantiated with the facts the translator extracts
+from the current source (`c05x.` commands).  Oracle: Lean checkers `segmentsOKB` / `smallSegmentsOKB`
+on navis' own lists; a mismatch with a definition is a failing input for the property (`ctx.defn`).
+
+Streams (kinds; every kind is also re-run by harness/c04.py under each back-end):
+  dist      geodesic_matrix(directed, weight, limit, from_) + dist_between + dist_to_root + distal_to + cable + adjacency
+  segments  small_segments, segments (weighted / unweighted), checker, exact order when no ties, segment_length
+  geox      option forms of geodesic_matrix: from_ as scalar / numpy scalar / list / tuple / array / set (duplicates, unsorted,
+            missing id -> ValueError), limit as 0 / number / float / np.inf / float('inf') / equal to an existing distance / unit
+            string, NeuronList input, the cached property, units
+  point     dist_between on all pairs (across fragments, a == b, list / NeuronList forms), distal_to in scalar / matrix /
+            None forms (self, unreachable), dist_to_root (weight, igraph_indices)
+  adjx      skeleton_adjacency_matrix(sort=False / True), x.adjacency_matrix, NeuronList forms
+  cablex    parent_dist (root_dist), cable_length(mask=array / callable), NeuronList.cable_length
+  hist      warm caches -> 2-4 operations (reroot, subset, cut, prune_twigs, x * k, x.nodes = …) -> every observable after
+            every step
+  segx      segment_length of every (small) segment, _generate_segments(return_lengths=True), NeuronList inputs
+  mesh      MeshNeuron geodesic_matrix (vertex labels, from_, limit, weight) vs shortest paths on the edge graph
+"""
+import warnings, random, itertools
 import numpy as np
 import pandas as pd
 
@@ -13,6 +31,8 @@ from . import gen as G
 
 navis.config.pbar_hide = True
 navis.set_loggers('ERROR')
+
+GU = navis.graph.graph_utils
 
 
 def fmt(v):
@@ -33,6 +53,13 @@ def canon_matrix(df):
     return ' '.join(f"{int(r)}=" + ','.join(fmt(v) for v in sub[i]) for i, r in enumerate(rows))
 
 
+def canon_bool(df):
+    rows = sorted(df.index.tolist())
+    cols = sorted(df.columns.tolist())
+    sub = df.loc[rows, cols].values
+    return ' '.join(f"{int(r)}=" + ','.join(str(int(bool(v))) for v in sub[i]) for i, r in enumerate(rows))
+
+
 def segs_wire(segs):
     return ';'.join(','.join(str(int(v)) for v in s) for s in segs)
 
@@ -41,11 +68,32 @@ def canon_segs(segs):
     return ';'.join(','.join(map(str, s)) for s in sorted([int(v) for v in s] for s in segs))
 
 
+def ints(l):
+    return ','.join(str(int(v)) for v in l)
+
+
+def branch_of(be):
+    """Which branch of geodesic_matrix runs for a TreeNeuron: navis-fastcore ('fc') or scipy ('sp')."""
+    return 'fc' if navis.utils.fastcore else 'sp'
+
+
+def warm_up(x):
+    _ = x.graph; _ = x.igraph; _ = x.segments; _ = x.small_segments; _ = x.cable_length
+    try:
+        _ = x.geodesic_matrix
+    except Exception:
+        pass
+    try:
+        _ = x.adjacency_matrix
+    except Exception:
+        pass
+
+
 def build(case):
     """The neuron under test. With `warm`, it is DERIVED from a neuron whose cached views (graphs, segments,
     geodesic matrix) have been read: x = (warm x0 / k) * k ... so that stale caches surviving an operation show
     up as wrong distances on the result (k dyadic: coordinates stay exact)."""
-    x = G.to_neuron(case['rows'])
+    x = G.to_neuron(case['rows'], **({'units': case['units']} if case.get('units') else {}))
     w = case.get('warm')
     if w:
         _ = x.graph; _ = x.igraph; _ = x.segments; _ = x.small_segments; _ = x.cable_length
@@ -63,6 +111,28 @@ def build(case):
     return x
 
 
+def integer_edges(ctx, wire):
+    sq = ctx.ask('f.sqlens ' + wire)
+    for tok in sq.split():
+        i, s2, rt = tok.split(':')
+        if int(rt) * int(rt) != int(s2):
+            return False
+    return True
+
+
+def parse_lmat(s):
+    """`rows=.. cols=.. # a=..` -> (rows, cols, body)"""
+    head, body = s.split(' # ') if ' # ' in s else (s.rstrip(' #'), '')
+    rows = cols = None
+    for tok in head.split():
+        if tok.startswith('rows='):
+            rows = [int(v) for v in tok[5:].split(',') if v != '']
+        elif tok.startswith('cols='):
+            cols = [int(v) for v in tok[5:].split(',') if v != '']
+    return rows, cols, body.strip()
+
+
+# ================================================================================================ dist (first pass)
 def case_dist(ctx, case, be=None):
     rows = case['rows']
     x = build(case)
@@ -71,10 +141,7 @@ def case_dist(ctx, case, be=None):
     tag = f'[{be}]' if be else ''
     r = random.Random(case['seed'])
     # exact integer edge lengths?
-    sq = ctx.ask('f.sqlens ' + wire)
-    for tok in sq.split():
-        i, s2, rt = tok.split(':')
-        assert int(rt) * int(rt) == int(s2), 'generator produced a non-integer edge length'
+    assert integer_edges(ctx, wire), 'generator produced a non-integer edge length'
     # --- geodesic matrix
     directed, weighted = case['directed'], case['weighted']
     limit = case['limit']
@@ -95,6 +162,15 @@ def case_dist(ctx, case, be=None):
         fr = '*' if from_ is None else ','.join(map(str, sorted(set(from_))))
         model = ctx.ask(f"f.geo {int(directed)} {int(weighted)} {'inf' if limit is None else limit} {fr} | {wire}")
         ctx.defn(impl, model, f'geodesic_matrix(directed={directed}, weight={weighted}, limit={limit}, from_={"yes" if from_ else "no"}) vs definition {tag}', case, signature=sig)
+        # the as-written model of the branch that ran, instantiated with the facts of the current source
+        frw = '*' if from_ is None else 'l:' + ints(from_)
+        mw = ctx.ask(f"c05x.geow {branch_of(be)} {int(directed)} {int(weighted)} {'npinf' if limit is None else limit} {frw} | {wire}")
+        if mw.startswith('ERR') or mw == 'BAD-OP':
+            ctx.corr(impl, mw, f'geodesic_matrix vs as-written model ({branch_of(be)} branch) {tag}', case)
+        else:
+            rws, cls, body = parse_lmat(mw)
+            ctx.corr(impl, body, f'geodesic_matrix vs as-written model ({branch_of(be)} branch) {tag}', case)
+            ctx.count('label_order_as_modelled', (m.index.tolist(), m.columns.tolist()) == (rws, cls))
     except Exception as e:
         ctx.oracle(False, f'geodesic_matrix raised {type(e).__name__}: {str(e)[:100]} {tag}', case, signature=sig)
     ctx.count('geo', f'd{int(directed)}w{int(weighted)}l{"y" if limit is not None else "n"}f{"y" if from_ else "n"}')
@@ -114,8 +190,7 @@ def case_dist(ctx, case, be=None):
             d = navis.dist_between(x, a, b)
             ctx.defn(fmt(d), want, f'dist_between({a},{b}) vs definition {tag}', case, signature=sig)
         except Exception as e:
-            # unreachable pairs may raise (networkx: NetworkXNoPath)
-            ctx.oracle(want == 'inf', f'dist_between({a},{b}) raised {type(e).__name__} but the distance is {want} {tag}', case)
+            ctx.oracle(False, f'dist_between({a},{b}) raised {type(e).__name__} (the distance is {want}) {tag}', case)
     # --- dist_to_root
     for w in (0, 1):
         try:
@@ -148,7 +223,7 @@ def case_dist(ctx, case, be=None):
         ctx.oracle(False, f'cable_length raised {type(e).__name__}: {str(e)[:80]} {tag}', case)
     # --- adjacency matrix
     try:
-        adj = navis.graph.skeleton_adjacency_matrix(x, sort=False)
+        adj = GU.skeleton_adjacency_matrix(x, sort=False)
         impl = ' '.join(f'{int(a)}>{int(b)}' for a in sorted(adj.index) for b in sorted(adj.columns) if bool(adj.loc[a, b]))
         ctx.defn(impl, ctx.ask('f.adj ' + wire), f'skeleton_adjacency_matrix vs parent relation {tag}', case,
                  signature='adjacency/unsorted-ids-searchsorted')
@@ -157,8 +232,45 @@ def case_dist(ctx, case, be=None):
                    signature='adjacency/readonly-assignment')
 
 
+# ================================================================================================ segments
+def leaf_depths(rows_now, depth):
+    pm = {i: p for i, p in rows_now}
+    haschild = set(pm.values())
+    return [depth[i] for i in pm if i not in haschild and pm[i] >= 0]
+
+
+def compare_segments(ctx, x, wire, w, segs, case, tag):
+    """navis' `segments` vs the greedy-longest model.  The decomposition and the order of the multi-node segments are
+    determined only when no two leafs are equally deep and no two multi-node segments are equally long (a zero-length
+    segment ties with every other zero-length segment); single-node segments (isolated nodes, all of length 0) may be
+    interleaved with zero-length multi-node segments in any order.  Under ties the proved-sound checker decides alone."""
+    model = ctx.ask(f'f.segs {w} | {wire}')
+    mseg, mlen = model.split(' # ')
+    mlist = [[int(v) for v in s.split(',')] for s in mseg.strip().split(';')] if mseg.strip() else []
+    lens = [int(v) for v in mlen.split(',')] if mlen.strip() else []
+    # the builder with the facts of the current source plugged in is the model (theorem generate_segments_as_written)
+    ctx.corr(ctx.ask(f'c05x.segsw {w} | {wire}'), model, f'_generate_segments: as-written builder vs model (weighted={w}) {tag}', case)
+    dr = ctx.ask(f'f.distroot {w} | {wire}')
+    depth = {int(t.split('=')[0]): int(t.split('=')[1]) for t in dr.split()}
+    nd = x.nodes
+    ld = leaf_depths(list(zip(map(int, nd.node_id.values), map(int, nd.parent_id.values))), depth)
+    multi_m = [(s, l) for s, l in zip(mlist, lens) if len(s) > 1]
+    mlens = [l for _, l in multi_m]
+    multi_i = [s for s in segs if len(s) > 1]
+    if len(set(ld)) == len(ld) and len(set(mlens)) == len(mlens):
+        ctx.defn(segs_wire(multi_i), segs_wire([s for s, _ in multi_m]),
+                 f'segments(weighted={w}) vs greedy-longest definition (no ties): multi-node segments in order {tag}', case)
+        ctx.count('segments_unique', w)
+    else:
+        ctx.count('segments_ties', w)
+        if any(l == 0 for l in mlens):
+            ctx.count('segments_zero_length_ties', w)
+    ctx.defn(sorted(s[0] for s in segs if len(s) == 1), sorted(s[0] for s in mlist if len(s) == 1),
+             f'segments(weighted={w}): single-node segments are not exactly the isolated nodes {tag}', case)
+    return mlist, lens
+
+
 def case_segments(ctx, case, be=None):
-    rows = case['rows']
     x = build(case)
     wire = G.wire_neuron(x, labels=False)
     tag = f'[{be}]' if be else ''
@@ -167,6 +279,7 @@ def case_segments(ctx, case, be=None):
         ss = x.small_segments
         impl = canon_segs(ss)
         ctx.defn(impl, ctx.ask('f.smallsegs ' + wire), f'small_segments vs definition {tag}', case)
+        ctx.corr(ctx.ask('c05x.smallsegsw ' + wire), ctx.ask('f.smallsegs ' + wire), f'_break_segments: as-written builder vs model {tag}', case)
         ok = ctx.ask(f'f.smallsegsok {wire} | {segs_wire(ss)}')
         ctx.oracle(ok == '1', f'small_segments do not partition the edges into leaf/branch -> branch/root paths with slabs in between {tag}', case)
     except Exception as e:
@@ -174,7 +287,7 @@ def case_segments(ctx, case, be=None):
     # segments (unweighted = x.segments; weighted = _generate_segments(weight='weight'))
     for w in (0, 1):
         try:
-            segs = x.segments if w == 0 else navis.graph.graph_utils._generate_segments(x, weight='weight')
+            segs = x.segments if w == 0 else GU._generate_segments(x, weight='weight')
             segs = [[int(v) for v in s] for s in segs]
         except Exception as e:
             ctx.oracle(False, f'segments(weighted={w}) raised {type(e).__name__}: {str(e)[:80]} {tag}', case)
@@ -182,21 +295,7 @@ def case_segments(ctx, case, be=None):
         ok = ctx.ask(f'f.segsok {w} | {wire} | {segs_wire(segs)}')
         ctx.oracle(ok == '1', f'segments(weighted={w}) are not an edge partition into child->parent paths, longest first, isolated nodes as '
                               f'single-node segments {tag}', case)
-        model = ctx.ask(f'f.segs {w} | {wire}')
-        mseg, mlen = model.split(' # ')
-        lens = [int(v) for v in mlen.split(',')] if mlen.strip() else []
-        # the decomposition is unique only without ties among leaf depths; compare then
-        dr = ctx.ask(f'f.distroot {w} | {wire}')
-        depth = {int(t.split('=')[0]): int(t.split('=')[1]) for t in dr.split()}
-        pm = {rw['id']: rw['parent'] for rw in rows}
-        haschild = set(pm.values())
-        leaf_depths = [depth[i] for i in pm if i not in haschild and pm[i] >= 0]
-        multi = [l for l in lens if l > 0]
-        if len(set(leaf_depths)) == len(leaf_depths) and len(set(multi)) == len(multi):
-            ctx.defn(segs_wire(segs), mseg.strip(), f'segments(weighted={w}) vs greedy-longest definition (no ties) {tag}', case)
-            ctx.count('segments_unique', w)
-        else:
-            ctx.count('segments_ties', w)
+        mlist, lens = compare_segments(ctx, x, wire, w, segs, case, tag)
         # segment_length of the first segment
         if w == 1 and segs and len(segs[0]) > 1:
             try:
@@ -204,6 +303,630 @@ def case_segments(ctx, case, be=None):
                 ctx.defn(fmt(sl), str(lens[0]) if lens else '0', f'segment_length(first segment) {tag}', case)
             except Exception as e:
                 ctx.oracle(False, f'segment_length raised {type(e).__name__} {tag}', case)
+    m = case.get('meta', {})
+    if m.get('shape') == 'zeroseg':
+        ctx.count('zeroseg', be or 'default')
+
+
+# ================================================================================================ geox
+SIG_LIMIT_ZERO_STR = 'geodesic_matrix/limit="0 <unit>"/map_units-round_smart-log10(0)-ValueError'
+
+
+def realise_from(spec):
+    """-> (python value or None, wire for c05x, sorted unique ids or None)"""
+    if spec is None:
+        return None, '*', None
+    kind, idl = spec[0], list(spec[1])
+    if kind == 'scalar':
+        return int(idl[0]), f's:{idl[0]}', [idl[0]]
+    if kind == 'npscalar':
+        return np.int64(idl[0]), f's:{idl[0]}', [idl[0]]
+    w = 'l:' + ints(idl)
+    u = sorted(set(idl))
+    if kind == 'list':
+        return list(idl), w, u
+    if kind == 'tuple':
+        return tuple(idl), w, u
+    if kind == 'array':
+        return np.array(idl, dtype=np.int64), w, u
+    if kind == 'array32':
+        return np.array(idl, dtype=np.int64).astype(np.int32) if max(idl) < 2 ** 31 else np.array(idl, dtype=np.int64), w, u
+    if kind == 'set':
+        return set(idl), w, u
+    if kind == 'series':
+        return pd.Series(idl, dtype=np.int64), w, u
+    raise ValueError(kind)
+
+
+def realise_limit(spec, ref_vals, unit_k):
+    """-> (python value or '<omit>', wire for c05x, value for f.geo)"""
+    kind = spec[0]
+    if kind == 'omit':
+        return '<omit>', 'npinf', 'inf'
+    if kind == 'npinf':
+        return np.inf, 'npinf', 'inf'
+    if kind == 'inf':
+        return float('inf'), 'inf', 'inf'
+    if kind == 'num':
+        return int(spec[1]), str(spec[1]), str(spec[1])
+    if kind == 'float':
+        return float(spec[1]), str(int(spec[1])), str(int(spec[1]))
+    if kind == 'npnum':
+        return np.int64(spec[1]), str(spec[1]), str(spec[1])
+    if kind == 'eq':          # equal to a distance that occurs in the matrix
+        vals = sorted(set(ref_vals))
+        v = vals[spec[1] % len(vals)] if vals else 0
+        return (float(v) if spec[1] % 2 else int(v)), str(v), str(v)
+    if kind == 'str':         # unit string: n units
+        return f'{spec[1] * unit_k:g} nm', str(spec[1]), str(spec[1])
+    raise ValueError(kind)
+
+
+def case_geox(ctx, case, be=None):
+    rows = case['rows']
+    x = build(case)
+    wire = G.wire_neuron(x, labels=False)
+    ids = [r['id'] for r in rows]
+    tag = f'[{be}]' if be else ''
+    directed, weighted = case['directed'], case['weighted']
+    try:
+        unit_k = float(x.units.to('nm').magnitude)      # the neuron's own unit in nm (x * k divides it by k)
+    except Exception:
+        unit_k = 1.0
+    full = ctx.ask(f'f.geo {int(directed)} {int(weighted)} inf * | {wire}')
+    ref_vals = [int(v) for tok in full.split() for v in tok.split('=')[1].split(',') if v != 'inf']
+    fpy, fwire, fu = realise_from(case['from'])
+    lpy, lwire, ldef = realise_limit(case['limit'], ref_vals, unit_k)
+    kw = {}
+    if case.get('pass_directed', True):
+        kw['directed'] = directed
+    if case.get('pass_weight', True) or not weighted:
+        kw['weight'] = 'weight' if weighted else None
+    eff_directed = directed if 'directed' in kw else False
+    eff_weighted = weighted if 'weight' in kw else True
+    if lpy != '<omit>':
+        kw['limit'] = lpy
+    if fpy is not None:
+        kw['from_'] = fpy
+    target = navis.NeuronList([x]) if case.get('wrap') == 'list' else x
+    via = case.get('via', 'func')
+    ctx.count('geox_from', 'none' if case['from'] is None else case['from'][0])
+    ctx.count('geox_limit', case['limit'][0])
+    ctx.count('geox_wrap', f"{case.get('wrap') or 'neuron'}/{via}/{case.get('units') or '1 nm'}")
+    mw = ctx.ask(f"c05x.geow {branch_of(be)} {int(eff_directed)} {int(eff_weighted)} {lwire} {fwire} | {wire}")
+    missing = via != 'prop' and fu is not None and any(i not in ids for i in fu)
+    what = (f'geodesic_matrix(from_={case["from"] and case["from"][0]}, limit={case["limit"]}, directed={eff_directed}, weight={eff_weighted}, '
+            f'{case.get("wrap") or "neuron"}, {via}) {tag}')
+    try:
+        if via == 'prop':
+            m = x.geodesic_matrix          # cached view: defaults (undirected, weighted, no limit, all rows)
+            mw = ctx.ask(f"c05x.geow {branch_of(be)} 0 1 npinf * | {wire}")
+            eff_directed, eff_weighted, ldef, fu = False, True, 'inf', None
+        else:
+            m = navis.geodesic_matrix(target, **kw)
+    except ValueError as e:
+        if 'math domain' in str(e) and case['limit'] == ['str', 0]:
+            # map_units('0 nm') -> round_smart(0.0) -> log10(0): the limit never reaches geodesic_matrix' own code
+            ctx.oracle(False, f'{what} raised ValueError: {str(e)[:80]}', case, signature=SIG_LIMIT_ZERO_STR)
+            return
+        ctx.oracle(missing, f'{what} raised ValueError: {str(e)[:80]}', case)
+        ctx.corr('ERR:not-present', mw, f'{what}: ValueError vs as-written model', case)
+        ctx.count('geox_outcome', 'ValueError(missing id)')
+        return
+    except Exception as e:
+        ctx.oracle(False, f'{what} raised {type(e).__name__}: {str(e)[:80]}', case)
+        return
+    if missing:
+        ctx.oracle(False, f'{what}: an id that is not in the table was accepted', case)
+        return
+    ctx.count('geox_outcome', 'matrix')
+    impl = canon_matrix(m)
+    ok = (sorted(m.columns.tolist()) == sorted(ids) and sorted(m.index.tolist()) == (fu if fu is not None else sorted(ids))
+          and len(set(m.index.tolist())) == len(m.index))
+    ctx.oracle(ok, f'{what}: rows/columns are not labelled by the requested / all node ids (each once)', case)
+    fr = '*' if fu is None else ','.join(map(str, fu))
+    ctx.defn(impl, ctx.ask(f"f.geo {int(eff_directed)} {int(eff_weighted)} {ldef} {fr} | {wire}"), f'{what} vs definition', case)
+    if mw.startswith('ERR') or mw == 'BAD-OP':
+        ctx.corr(impl, mw, f'{what} vs as-written model', case)
+    else:
+        rws, cls, body = parse_lmat(mw)
+        ctx.corr(impl, body, f'{what} vs as-written model', case)
+        ctx.count('label_order_as_modelled', (m.index.tolist(), m.columns.tolist()) == (rws, cls))
+    if case.get('wrap') == 'list2':
+        pass
+
+
+def case_geox_errors(ctx, x, case, tag):
+    try:
+        navis.geodesic_matrix(navis.NeuronList([x, x.copy()]))
+        ctx.oracle(False, f'geodesic_matrix(NeuronList of 2) did not raise {tag}', case)
+    except ValueError:
+        pass
+    except Exception as e:
+        ctx.oracle(False, f'geodesic_matrix(NeuronList of 2) raised {type(e).__name__} instead of ValueError {tag}', case)
+
+
+# ================================================================================================ point
+def case_point(ctx, case, be=None):
+    rows = case['rows']
+    x = build(case)
+    wire = G.wire_neuron(x, labels=False)
+    ids = [r['id'] for r in rows]
+    sid = sorted(ids)
+    tag = f'[{be}]' if be else ''
+    r = random.Random(case['seed'])
+    ref = ctx.ask(f'f.geo 0 1 inf * | {wire}')
+    refd = {}
+    for tok in ref.split():
+        a, vs = tok.split('=')
+        for b, v in zip(sid, vs.split(',')):
+            refd[(int(a), b)] = v
+    pairs = list(itertools.product(ids, ids))
+    if len(pairs) > 40:
+        pairs = r.sample(pairs, 40) + [(i, i) for i in r.sample(ids, 2)]
+    forms = ['int', 'np', 'list', 'nl']
+    for (a, b) in pairs:
+        form = r.choice(forms)
+        try:
+            if form == 'int':
+                d = navis.dist_between(x, int(a), int(b))
+            elif form == 'np':
+                d = navis.dist_between(x, np.int64(a), np.int64(b))
+            elif form == 'list':
+                d = navis.dist_between(x, [int(a)], np.array([b]))
+            else:
+                d = navis.dist_between(navis.NeuronList([x]), int(a), int(b))
+            ctx.defn(fmt(d), refd[(a, b)], f'dist_between({a},{b}) [{form}] vs definition {tag}', case)
+            ctx.count('dist_between', 'inf' if refd[(a, b)] == 'inf' else ('self' if a == b else 'finite'))
+        except Exception as e:
+            ctx.oracle(False, f'dist_between({a},{b}) [{form}] raised {type(e).__name__}: {str(e)[:60]} (the distance is {refd[(a, b)]}) {tag}', case)
+    # --- distal_to in all its forms
+    dirm = ctx.ask(f'f.geo 1 0 inf * | {wire}')
+    dd = {}
+    for tok in dirm.split():
+        a, vs = tok.split('=')
+        for b, v in zip(sid, vs.split(',')):
+            dd[(int(a), b)] = v != 'inf'
+
+    def pick(kind):
+        if kind == 'none':
+            return None, '*', ids
+        if kind == 'scalar':
+            i = r.choice(ids)
+            return int(i), f's:{i}', [i]
+        if kind == 'npscalar':
+            i = r.choice(ids)
+            return np.int64(i), f's:{i}', [i]
+        l = [r.choice(ids) for _ in range(r.randint(1, min(5, len(ids) + 1)))]
+        if kind == 'array':
+            return np.array(l, dtype=np.int64), 'l:' + ints(l), sorted(set(l))
+        return l, 'l:' + ints(l), sorted(set(l))
+    for _ in range(4):
+        ka, kb = r.choice(['none', 'scalar', 'npscalar', 'list', 'array']), r.choice(['none', 'scalar', 'npscalar', 'list', 'array'])
+        A, wa, ua = pick(ka)
+        B, wb, ub = pick(kb)
+        if r.random() < 0.25 and ka != 'none':     # a node against itself / the same list on both sides
+            B, wb, ub, kb = A, wa, ua, ka
+        mdl = ctx.ask(f'c05x.distal {wa} ; {wb} | {wire}')
+        what = f'distal_to(a={ka}, b={kb}) {tag}'
+        ctx.count('distal_forms', f'{ka}x{kb}')
+        try:
+            df = navis.distal_to(x, A, B)
+        except Exception as e:
+            ctx.oracle(False, f'{what} raised {type(e).__name__}: {str(e)[:80]}', case)
+            continue
+        if isinstance(df, (bool, np.bool_)):
+            ctx.oracle(len(ua) == 1 and len(ub) == 1, f'{what} returned a scalar for a {len(ua)}x{len(ub)} query', case)
+            ctx.oracle(bool(df) == dd[(ua[0], ub[0])], f'{what}: {ua[0]} distal to {ub[0]} is {bool(df)}, definition says {dd[(ua[0], ub[0])]}', case)
+            ctx.corr(f'S:{int(bool(df))}', mdl, f'{what} vs as-written model', case)
+            if ua[0] == ub[0]:
+                ctx.count('distal_self', str(bool(df)))
+        else:
+            ok = sorted(df.index.tolist()) == sorted(ua) and sorted(df.columns.tolist()) == sorted(ub)
+            ctx.oracle(ok, f'{what}: rows/columns are not labelled by the requested node ids (each once)', case)
+            if ok:
+                bad = [(a, b) for a in ua for b in ub if bool(df.loc[a, b]) != dd[(a, b)]]
+                ctx.oracle(not bad, f'{what} disagrees with "b lies on a\'s path to the root" at {bad[:3]}', case)
+                if mdl.startswith('S:') or mdl == 'BAD-OP':
+                    ctx.corr('matrix', mdl, f'{what} vs as-written model', case)
+                else:
+                    rws, cls, body = parse_lmat(mdl)
+                    ctx.corr(canon_bool(df), body, f'{what} vs as-written model', case)
+                    ctx.count('label_order_as_modelled', (df.index.tolist(), df.columns.tolist()) == (rws, cls))
+    # --- dist_to_root: weight x igraph_indices
+    for w in (0, 1):
+        for ix in (0, 1):
+            try:
+                d = navis.graph.dist_to_root(x, weight='weight' if w else None, igraph_indices=bool(ix))
+                impl = ' '.join(f'{int(k)}={fmt(v)}' for k, v in sorted((int(k), v) for k, v in d.items()))
+                ctx.corr(impl, ctx.ask(f'c05x.distroot {w} {ix} | {wire}'), f'dist_to_root(weight={w}, igraph_indices={ix}) vs as-written model {tag}', case)
+                if not ix:
+                    ctx.defn(impl, ctx.ask(f'f.distroot {w} | {wire}'), f'dist_to_root(weight={w}) vs definition {tag}', case)
+                else:
+                    pos = {int(i): k for k, i in enumerate(x.nodes.node_id.values)}
+                    dr = dict(t.split('=') for t in ctx.ask(f'f.distroot {w} | {wire}').split())
+                    want = ' '.join(f'{k}={v}' for k, v in sorted((pos[int(i)], v) for i, v in dr.items()))
+                    ctx.defn(impl, want, f'dist_to_root(weight={w}, igraph_indices=True) vs definition under row positions {tag}', case)
+            except Exception as e:
+                ctx.oracle(False, f'dist_to_root(weight={w}, igraph_indices={ix}) raised {type(e).__name__}: {str(e)[:80]} {tag}', case)
+
+
+# ================================================================================================ adjx
+SIG_ADJ_MULTIROOT = 'x.adjacency_matrix/sort=True/multi-root/ValueError'
+
+
+def adj_rel(adj):
+    return ' '.join(f'{int(a)}>{int(b)}' for a in sorted(adj.index) for b in sorted(adj.columns) if bool(adj.loc[a, b]))
+
+
+def case_adjx(ctx, case, be=None):
+    rows = case['rows']
+    x = build(case)
+    wire = G.wire_neuron(x, labels=False)
+    ids = [r['id'] for r in rows]
+    tag = f'[{be}]' if be else ''
+    want = ctx.ask('f.adj ' + wire)
+    nroots = sum(1 for r in rows if r['parent'] < 0)
+    # sort=False through the as-written model
+    try:
+        target = navis.NeuronList([x]) if case.get('wrap') == 'list' else x
+        adj = GU.skeleton_adjacency_matrix(target, sort=False)
+        ok = adj.index.tolist() == adj.columns.tolist() and sorted(adj.index.tolist()) == sorted(ids)
+        ctx.oracle(ok, f'skeleton_adjacency_matrix(sort=False): rows/columns are not labelled by the node ids (each once, same order) {tag}', case)
+        ctx.defn(adj_rel(adj), want, f'skeleton_adjacency_matrix(sort=False) vs parent relation {tag}', case)
+        mw = ctx.ask('c05x.adjw ' + wire)
+        if mw.startswith('ERR') or mw == 'BAD-OP':
+            ctx.corr(adj_rel(adj), mw, f'skeleton_adjacency_matrix(sort=False) vs as-written model {tag}', case)
+        else:
+            rws, cls, body = parse_lmat(mw)
+            ctx.corr(adj_rel(adj), body, f'skeleton_adjacency_matrix(sort=False) vs as-written model {tag}', case)
+            ctx.count('label_order_as_modelled', (adj.index.tolist(), adj.columns.tolist()) == (rws, cls))
+        ctx.oracle(int(adj.values.sum()) == sum(1 for r in rows if r['parent'] >= 0),
+                   f'skeleton_adjacency_matrix(sort=False): number of True entries is not the number of edges {tag}', case)
+    except Exception as e:
+        ctx.oracle(False, f'skeleton_adjacency_matrix(sort=False) raised {type(e).__name__}: {str(e)[:80]} {tag}', case)
+    # sort=True: the cached view and the function default
+    for how in ('prop', 'func'):
+        sig = SIG_ADJ_MULTIROOT if nroots > 1 else None
+        try:
+            adj = x.adjacency_matrix if how == 'prop' else GU.skeleton_adjacency_matrix(x)
+        except Exception as e:
+            ctx.oracle(False, f'adjacency matrix (sort=True, {how}) raised {type(e).__name__}: {str(e)[:60]} on a skeleton with {"several roots" if nroots > 1 else "one root"} {tag}',
+                       case, signature=sig if (isinstance(e, ValueError) and 'multi-root' in str(e)) else None)
+            ctx.count('adj_sorted', f'{how}:raises' + (':multi-root' if nroots > 1 else ''))
+            continue
+        ctx.count('adj_sorted', f'{how}:ok')
+        ok = adj.index.tolist() == adj.columns.tolist() and sorted(int(v) for v in adj.index.tolist()) == sorted(ids)
+        ctx.oracle(ok, f'adjacency matrix (sort=True, {how}): rows/columns are not labelled by the node ids (each once, same order) {tag}', case)
+        if ok:
+            ctx.defn(adj_rel(adj), want, f'adjacency matrix (sort=True, {how}) vs parent relation {tag}', case)
+    if case.get('wrap') == 'list':
+        try:
+            GU.skeleton_adjacency_matrix(navis.NeuronList([x, x.copy()]), sort=False)
+            ctx.oracle(False, f'skeleton_adjacency_matrix(NeuronList of 2) did not raise {tag}', case)
+        except ValueError:
+            pass
+        except Exception as e:
+            ctx.oracle(False, f'skeleton_adjacency_matrix(NeuronList of 2) raised {type(e).__name__} {tag}', case)
+
+
+# ================================================================================================ cablex
+def case_cablex(ctx, case, be=None):
+    rows = case['rows']
+    x = build(case)
+    wire = G.wire_neuron(x, labels=False)
+    tag = f'[{be}]' if be else ''
+    r = random.Random(case['seed'])
+    PD = navis.morpho.mmetrics.parent_dist
+    for rd, rw in ((0, '0'), (None, 'nan'), (7, '7')):
+        for inp in ('neuron', 'table'):
+            if inp == 'table' and navis.utils.fastcore:
+                continue          # the accelerator branch reads x.nodes: a bare table is only accepted by the numpy branch
+            try:
+                w = PD(x if inp == 'neuron' else x.nodes, root_dist=rd)
+                impl = ','.join('nan' if (v is None or np.isnan(v)) else fmt(v) for v in w)
+                ctx.corr(impl, ctx.ask(f'c05x.pdist {rw} | {wire}'), f'parent_dist({inp}, root_dist={rd}) vs as-written model {tag}', case)
+                if rd == 0:
+                    ctx.defn(fmt(np.sum(w)), ctx.ask('f.cable ' + wire), f'sum(parent_dist(root_dist=0)) vs cable length {tag}', case)
+            except Exception as e:
+                ctx.oracle(False, f'parent_dist({inp}, root_dist={rd}) raised {type(e).__name__}: {str(e)[:80]} {tag}', case)
+    n = len(rows)
+    masks = [[True] * n, [r.random() < 0.6 for _ in range(n)], [r.random() < 0.3 for _ in range(n)], [False] * n]
+    for mk in masks:
+        bits = ''.join('1' if b else '0' for b in mk)
+        want = ctx.ask(f'c05x.cablemask {bits} | {wire}')
+        for form in ('array', 'callable'):
+            try:
+                arr = np.array(mk, dtype=bool)
+                cl = navis.morpho.cable_length(x, mask=arr if form == 'array' else (lambda nodes, a=arr: a))
+                ctx.corr(fmt(cl), want, f'cable_length(mask={form}, {sum(mk)}/{n} rows) vs as-written model {tag}', case)
+                if all(mk):
+                    ctx.defn(fmt(cl), ctx.ask('f.cable ' + wire), f'cable_length(mask=all) vs cable length {tag}', case)
+                ctx.count('cable_mask', 'all' if all(mk) else ('none' if not any(mk) else 'some'))
+            except Exception as e:
+                ctx.oracle(False, f'cable_length(mask={form}) raised {type(e).__name__}: {str(e)[:80]} {tag}', case)
+    # NeuronList: one value per neuron; units: the magnitude is in the neuron's own units
+    try:
+        y = G.to_neuron(rows[:max(1, n // 2)] if False else rows, units='8 nm')
+        nl = navis.NeuronList([x, y])
+        cls = nl.cable_length
+        want = ctx.ask('f.cable ' + wire)
+        ctx.defn([fmt(v) for v in cls], [want, want], f'NeuronList.cable_length vs cable length per neuron {tag}', case)
+        ctx.defn(fmt(navis.morpho.cable_length(x)), want, f'morpho.cable_length vs cable length {tag}', case)
+    except Exception as e:
+        ctx.oracle(False, f'NeuronList.cable_length raised {type(e).__name__}: {str(e)[:80]} {tag}', case)
+
+
+# ================================================================================================ hist
+def observe(ctx, x, case, be, step):
+    tag = f'[{be}]' if be else ''
+    wire = G.wire_neuron(x, labels=False)
+    if not wire.strip():
+        return
+    if not integer_edges(ctx, wire):
+        ctx.count('hist_skipped', 'non-integer edge')
+        return
+    w = f'after step {step} {tag}'
+    try:
+        ctx.defn(canon_matrix(navis.geodesic_matrix(x)), ctx.ask(f'f.geo 0 1 inf * | {wire}'), f'geodesic_matrix {w}', case)
+        ctx.defn(canon_matrix(x.geodesic_matrix), ctx.ask(f'f.geo 0 1 inf * | {wire}'), f'x.geodesic_matrix (cached view) {w}', case)
+        ctx.defn(canon_matrix(navis.geodesic_matrix(x, directed=True, weight=None)), ctx.ask(f'f.geo 1 0 inf * | {wire}'), f'geodesic_matrix(directed, unweighted) {w}', case)
+        d = navis.graph.dist_to_root(x, weight='weight')
+        ctx.defn(' '.join(f'{int(i)}={fmt(v)}' for i, v in sorted((int(k), v) for k, v in d.items())), ctx.ask(f'f.distroot 1 | {wire}'), f'dist_to_root {w}', case)
+        ctx.defn(fmt(x.cable_length), ctx.ask('f.cable ' + wire), f'cable_length {w}', case)
+        ss = x.small_segments
+        ctx.defn(canon_segs(ss), ctx.ask('f.smallsegs ' + wire), f'small_segments {w}', case)
+        for wt in (0, 1):
+            segs = x.segments if wt == 0 else GU._generate_segments(x, weight='weight')
+            segs = [[int(v) for v in s] for s in segs]
+            ctx.oracle(ctx.ask(f'f.segsok {wt} | {wire} | {segs_wire(segs)}') == '1', f'segments(weighted={wt}) fail the checker {w}', case)
+            if wt == 1:
+                compare_segments(ctx, x, wire, 1, segs, case, w)
+                got = ','.join(fmt(navis.segment_length(x, s)) if len(s) > 1 else '0' for s in segs)
+                ctx.defn(got, ctx.ask(f'c05x.seglen 1 | {wire} | {segs_wire(segs)}'), f'segment_length of every segment {w}', case)
+        if sum(1 for p in x.nodes.parent_id.values if p < 0) == 1:
+            ctx.defn(adj_rel(x.adjacency_matrix), ctx.ask('f.adj ' + wire), f'x.adjacency_matrix {w}', case)
+        adj = GU.skeleton_adjacency_matrix(x, sort=False)
+        ctx.defn(adj_rel(adj), ctx.ask('f.adj ' + wire), f'skeleton_adjacency_matrix(sort=False) {w}', case)
+        ids = [int(i) for i in x.nodes.node_id.values]
+        a, b = ids[0], ids[-1]
+        ref = dict(t.split('=') for t in ctx.ask(f'f.geo 0 1 inf {a} | {wire}').split())
+        ctx.defn(fmt(navis.dist_between(x, a, b)), ref[str(a)].split(',')[sorted(ids).index(b)], f'dist_between({a},{b}) {w}', case)
+    except Exception as e:
+        ctx.oracle(False, f'an observable raised {type(e).__name__}: {str(e)[:100]} {w}', case)
+
+
+def case_hist(ctx, case, be=None):
+    x = build(case)
+    r = random.Random(case['seed'])
+    observe(ctx, x, case, be, 0)
+    for step in range(1, case['steps'] + 1):
+        warm_up(x)
+        ids = [int(i) for i in x.nodes.node_id.values]
+        if not ids:
+            break
+        nonroot = [int(i) for i, p in zip(x.nodes.node_id.values, x.nodes.parent_id.values) if p >= 0]
+        op = r.choice(case['ops'])
+        try:
+            if op == 'reroot':
+                navis.reroot_skeleton(x, r.choice(ids), inplace=True)
+            elif op == 'reroot_copy':
+                x = navis.reroot_skeleton(x, r.choice(ids))
+            elif op == 'reroot_attr':
+                x.reroot(r.choice(ids), inplace=True)
+            elif op == 'subset':
+                keep = r.sample(ids, r.randint(max(1, len(ids) // 2), len(ids)))
+                navis.subset_neuron(x, keep, inplace=True)
+            elif op == 'subset_copy':
+                keep = r.sample(ids, r.randint(max(1, len(ids) // 2), len(ids)))
+                x = navis.subset_neuron(x, keep)
+            elif op == 'cut' and nonroot:
+                pcs = navis.cut_skeleton(x, r.choice(nonroot))
+                x = pcs[r.randrange(len(pcs))]
+            elif op == 'prune_twigs':
+                x = navis.prune_twigs(x, r.choice([1, 3, 5, 9]))
+            elif op == 'prune_twigs_inplace':
+                navis.prune_twigs(x, r.choice([1, 3, 5, 9]), inplace=True)
+            elif op == 'mul':
+                x = x * r.choice([2, 3])
+            elif op == 'imul':
+                x *= 2
+            elif op == 'setnodes':
+                rows2, _ = G.rand_forest(r, nmax=10)
+                x.nodes = G.rows_to_df(rows2)
+            elif op == 'copy':
+                x = x.copy()
+            else:
+                continue
+        except Exception as e:
+            ctx.count('hist_op_error', f'{op}:{type(e).__name__}')
+            continue
+        ctx.count('hist_op', op)
+        if len(x.nodes) == 0:
+            break
+        observe(ctx, x, case, be, f'{step}:{op}')
+
+
+HIST_OPS = ['reroot', 'reroot_copy', 'reroot_attr', 'subset', 'subset_copy', 'cut', 'prune_twigs', 'prune_twigs_inplace', 'mul', 'imul', 'setnodes', 'copy']
+
+
+# ================================================================================================ segx
+SIG_NL_RAGGED = 'NeuronList.segments/equal-number-of-segments/ragged-np.array-ValueError'
+
+
+def case_segx(ctx, case, be=None):
+    rows = case['rows']
+    x = build(case)
+    wire = G.wire_neuron(x, labels=False)
+    tag = f'[{be}]' if be else ''
+    if case.get('warmseg'):
+        warm_up(x)
+    try:
+        for name, segs in (('segments', x.segments), ('small_segments', x.small_segments)):
+            segs = [[int(v) for v in s] for s in segs]
+            multi = [s for s in segs if len(s) > 1]
+            if not multi:
+                continue
+            want = ctx.ask(f'c05x.seglen 1 | {wire} | {segs_wire(multi)}')
+            got = ','.join(fmt(navis.segment_length(x, s)) for s in multi)
+            ctx.defn(got, want, f'segment_length of every segment of x.{name} vs sum of its child-parent distances {tag}', case)
+            ctx.oracle('ERR' not in want, f'x.{name} contains a consecutive pair that is not a child->parent edge {tag}', case)
+            ctx.defn(fmt(sum(navis.segment_length(x, s) for s in multi)), ctx.ask('f.cable ' + wire), f'segment lengths of x.{name} add up to the cable length {tag}', case)
+        for w in (0, 1):
+            segs, lens = GU._generate_segments(x, weight='weight' if w else None, return_lengths=True)
+            segs = [[int(v) for v in s] for s in segs]
+            want = ctx.ask(f'c05x.seglen {w} | {wire} | {segs_wire(segs)}')
+            ctx.oracle('ERR' not in want, f'_generate_segments(weighted={w}) contains a non-edge {tag}', case)
+            if 'ERR' not in want:
+                wl = sorted((int(v) for v in want.split(',')), reverse=True) if want else []
+                gl = sorted((int(round(abs(float(v)))) for v in lens), reverse=True)
+                ctx.defn(gl, wl, f'_generate_segments(weighted={w}, return_lengths=True): lengths are not the segments\' lengths {tag}', case)
+                ctx.oracle(all(float(a) >= float(b) for a, b in zip(list(lens)[:-1], list(lens)[1:])), f'_generate_segments(weighted={w}, return_lengths=True): lengths not sorted longest first {tag}', case)
+        # NeuronList inputs: one result per neuron, each equal to the single-neuron result
+        y = G.to_neuron(rows[::-1])
+        nl = navis.NeuronList([x, y])
+        wy = G.wire_neuron(y, labels=False)
+        bs = GU._break_segments(nl)
+        ctx.defn([canon_segs(s) for s in bs], [ctx.ask('f.smallsegs ' + wire), ctx.ask('f.smallsegs ' + wy)], f'_break_segments(NeuronList) vs definition per neuron {tag}', case)
+        gs = GU._generate_segments(nl, weight='weight')
+        for s, wr in zip(gs, (wire, wy)):
+            s = [[int(v) for v in q] for q in s]
+            ctx.oracle(ctx.ask(f'f.segsok 1 | {wr} | {segs_wire(s)}') == '1', f'_generate_segments(NeuronList) fails the checker {tag}', case)
+        for attr in ('segments', 'small_segments'):
+            try:
+                vals = getattr(nl, attr)
+            except ValueError as e:
+                # np.array(list of per-neuron lists) in NeuronList.__getattr__: ragged at the second level
+                same = len({len(getattr(n, attr)) for n in nl}) == 1
+                ctx.oracle(False, f'NeuronList.{attr} raised ValueError: {str(e)[:60]} {tag}', case,
+                           signature=SIG_NL_RAGGED if (same and 'inhomogeneous' in str(e)) else None)
+                continue
+            for s, wr in zip(vals, (wire, wy)):
+                s = [[int(v) for v in q] for q in s]
+                if attr == 'segments':
+                    ctx.oracle(ctx.ask(f'f.segsok 0 | {wr} | {segs_wire(s)}') == '1', f'NeuronList.segments fails the checker {tag}', case)
+                else:
+                    ctx.defn(canon_segs(s), ctx.ask('f.smallsegs ' + wr), f'NeuronList.small_segments vs definition per neuron {tag}', case)
+    except Exception as e:
+        ctx.oracle(False, f'segment query raised {type(e).__name__}: {str(e)[:100]} {tag}', case)
+
+
+# ================================================================================================ mesh
+def strip_mesh(n, dx=3, dy=4):
+    """2 x (n+1) grid of vertices, every cell split by the same diagonal: edge lengths dx, dy, hypot (3-4-5 multiples)."""
+    v = []
+    for i in range(n + 1):
+        v.append([i * dx, 0, 0]); v.append([i * dx, dy, 0])
+    f = []
+    for i in range(n):
+        a, b, c, d = 2 * i, 2 * i + 1, 2 * i + 2, 2 * i + 3
+        f.append([a, c, b]); f.append([c, d, b])
+    return np.array(v, float), np.array(f)
+
+
+def case_mesh(ctx, case, be=None):
+    import trimesh
+    tag = f'[{be}]' if be else ''
+    r = random.Random(case['seed'])
+    v, f = strip_mesh(case['cells'], case['dx'], case['dy'])
+    if case.get('island'):          # a second, disconnected strip
+        v2, f2 = strip_mesh(1, case['dx'], case['dy'])
+        f = np.vstack([f, f2 + len(v)]); v = np.vstack([v, v2 + [0, 40, 0]])
+    m = navis.MeshNeuron(trimesh.Trimesh(v, f, process=False), units='1 nm')
+    nv = len(v)
+    eu, el = m.trimesh.edges_unique, m.trimesh.edges_unique_length
+    ok = all(abs(l - round(l)) < 1e-9 for l in el)
+    if not ok:
+        return
+    weighted = case['weighted']
+    ew = ' '.join(f'{int(a)}:{int(b)}:{int(round(l)) if weighted else 1}' for (a, b), l in zip(eu, el))
+    fr = case['from']
+    lim = case['limit']
+    kw = dict(weight='weight' if weighted else None)
+    if fr is not None:
+        kw['from_'] = fr
+    if lim is not None:
+        kw['limit'] = lim
+    if case.get('directed'):
+        kw['directed'] = True       # makes no sense for meshes: must be ignored
+    try:
+        gm = navis.geodesic_matrix(m, **kw)
+        ok = sorted(gm.columns.tolist()) == list(range(nv)) and sorted(gm.index.tolist()) == (sorted(set(fr)) if fr is not None else list(range(nv)))
+        ctx.oracle(ok, f'geodesic_matrix(MeshNeuron): rows/columns are not labelled by vertex index {tag}', case)
+        frw = '*' if fr is None else 'l:' + ints(fr)
+        want = ctx.ask(f"c05x.meshgeo {nv} {'npinf' if lim is None else lim} {frw} | {ew}")
+        ctx.defn(canon_matrix(gm), want, f'geodesic_matrix(MeshNeuron, weight={weighted}, limit={lim}, from_={"yes" if fr else "no"}) vs shortest paths on the edge graph {tag}', case)
+        ctx.count('mesh', f'w{int(weighted)}l{"y" if lim is not None else "n"}f{"y" if fr else "n"}')
+    except Exception as e:
+        ctx.oracle(False, f'geodesic_matrix(MeshNeuron) raised {type(e).__name__}: {str(e)[:100]} {tag}', case)
+
+
+# ================================================================================================ generators
+def gen_zeroseg(r):
+    """Forests in which whole segments have length 0 (coincident nodes) next to isolated nodes and ordinary branches:
+    the ordering of zero-length segments / isolated nodes is free, the checker decides."""
+    rows = []
+    nid = itertools.count(r.choice([0, 1, 5, 100]))
+    ids = []
+
+    def add(parent, pos):
+        i = next(nid) * r.choice([1, 1, 3]) if False else next(nid)
+        rows.append(dict(id=i, parent=parent, x=pos[0], y=pos[1], z=pos[2]))
+        return i
+    for _ in range(r.randint(1, 3)):                      # isolated nodes
+        add(-1, [r.randint(0, 9) * 4, 0, 0])
+    for _ in range(r.randint(1, 3)):                      # trees with zero-length twigs
+        p0 = [r.randint(0, 9) * 4, r.randint(0, 9) * 4, 0]
+        root = add(-1, p0)
+        cur, pos = root, list(p0)
+        for _ in range(r.randint(0, 3)):                  # trunk, positive or zero steps
+            if r.random() < 0.6:
+                pos = [pos[0] + 3, pos[1] + 4, pos[2]]
+            cur = add(cur, pos)
+            for _ in range(r.randint(0, 2)):              # zero-length twigs hanging on the trunk
+                t = add(cur, pos)
+                if r.random() < 0.3:
+                    add(t, pos)
+                if r.random() < 0.3:
+                    add(cur, [pos[0] + 3, pos[1], pos[2]])
+    for _ in range(r.randint(0, 2)):
+        add(-1, [0, 0, 8])
+    order = r.choice(G.ORDERS)
+    if order == 'reversed':
+        rows = rows[::-1]
+    elif order == 'shuffled':
+        r.shuffle(rows)
+    if r.random() < 0.5:        # relabel: shuffled / sparse ids
+        old = [rw['id'] for rw in rows]
+        new = r.sample(range(0, 5 * len(old) + 3), len(old))
+        mp = dict(zip(old, new))
+        rows = [dict(rw, id=mp[rw['id']], parent=(mp[rw['parent']] if rw['parent'] >= 0 else -1)) for rw in rows]
+    return rows, dict(shape='zeroseg', n=len(rows), labeling='mixed', order=order)
+
+
+FROM_KINDS = ['scalar', 'npscalar', 'list', 'list', 'tuple', 'array', 'array32', 'set', 'series']
+LIMIT_KINDS = ['omit', 'npinf', 'inf', 'zero', 'num', 'float', 'npnum', 'eq', 'eq', 'str']
+
+
+def gen_geox(r, rows, meta):
+    ids = [rw['id'] for rw in rows]
+    fk = r.choice([None] + FROM_KINDS)
+    if fk is None:
+        fr = None
+    else:
+        l = [r.choice(ids) for _ in range(r.randint(1, len(ids) + 2))] if r.random() < 0.6 else r.sample(ids, r.randint(1, len(ids)))
+        if r.random() < 0.08:
+            l = l + [max(ids) + 1 + r.randint(0, 5)]           # an id that is not in the table
+        fr = [fk, l]
+    lk = r.choice(LIMIT_KINDS)
+    lim = {'omit': ['omit'], 'npinf': ['npinf'], 'inf': ['inf'], 'zero': ['num', 0], 'num': ['num', r.choice([1, 2, 3, 5, 7, 9, 11, 14, 18, 25])],
+           'float': ['float', r.choice([0.0, 3.0, 7.0, 12.0])], 'npnum': ['npnum', r.choice([0, 4, 9])], 'eq': ['eq', r.randrange(50)],
+           'str': ['str', r.choice([0, 3, 6, 10])]}[lk]
+    units = r.choice([None, None, '8 nm', '2 nm']) if lk == 'str' else r.choice([None, None, None, '8 nm'])
+    via = 'prop' if r.random() < 0.1 else 'func'
+    return dict(rows=rows, directed=r.random() < 0.5, weighted=r.random() < 0.7, limit=lim, **{'from': fr}, units=units,
+                wrap='list' if r.random() < 0.2 else None, via=via, pass_directed=r.random() < 0.85, pass_weight=r.random() < 0.85,
+                warm=(dict(how=r.choice(['mul', 'imul', 'add']), k=2) if r.random() < 0.15 else None), meta=meta)
 
 
 def gen_cases(ctx, nf=None):
@@ -225,20 +948,102 @@ def gen_cases(ctx, nf=None):
         yield ('dist', dict(rows=rows, directed=r.random() < 0.5, weighted=r.random() < 0.7, limit=lim, **{'from': fr},
                             seed=r.randrange(10 ** 9), warm=warm, meta=meta))
         yield ('segments', dict(rows=rows, warm=warm, meta=meta))
+        # ---- second pass
+        small, smeta = G.rand_forest(r, nmax=12, allow_zero_edges=(k % 4 == 0))
+        if k % 2 == 0:
+            yield ('geox', gen_geox(r, small if k % 4 == 0 else rows, smeta if k % 4 == 0 else meta))
+        if k % 3 == 0:
+            yield ('point', dict(rows=small, seed=r.randrange(10 ** 9), meta=smeta))
+        if k % 4 == 1:
+            yield ('adjx', dict(rows=small, wrap='list' if r.random() < 0.3 else None, meta=smeta))
+        if k % 4 == 3:
+            yield ('cablex', dict(rows=small, seed=r.randrange(10 ** 9), meta=smeta))
+        if k % 5 == 0:
+            yield ('hist', dict(rows=small, seed=r.randrange(10 ** 9), steps=r.randint(2, 4), ops=HIST_OPS, meta=smeta))
+        if k % 5 == 2:
+            yield ('segx', dict(rows=small, warmseg=r.random() < 0.5, meta=smeta))
+        if k % 6 == 1:
+            zr, zm = gen_zeroseg(r)
+            yield ('segments', dict(rows=zr, warm=None, meta=zm))
+        if k % 10 == 7:
+            cells = r.randint(1, 4)
+            nv = 2 * (cells + 1)
+            mfr = None if r.random() < 0.4 else [r.randrange(nv) for _ in range(r.randint(1, 4))]
+            dx, dy = r.choice([(3, 4), (4, 3), (6, 8), (5, 12), (8, 15)])
+            yield ('mesh', dict(cells=cells, dx=dx, dy=dy, weighted=r.random() < 0.7, island=r.random() < 0.3,
+                                limit=r.choice([None, None, 0, 3, 5, 8, 12]), directed=r.random() < 0.3, **{'from': mfr},
+                                seed=r.randrange(10 ** 9), meta=dict(shape='mesh', n=nv, labeling='index', order='index')))
 
 
-RUNNERS = {'dist': case_dist, 'segments': case_segments}
+def guarded(kind, fn):
+    """An exception escaping from navis while the neuron under test is built / warmed up (cached views read) or from an
+    unguarded call is a failing input, not an infrastructure failure."""
+    def run_case(ctx, case, be=None):
+        try:
+            return fn(ctx, case, be)
+        except (AssertionError, RuntimeError, BrokenPipeError):
+            raise                  # harness / driver problems stay infrastructure failures
+        except Exception as e:
+            import traceback
+            tb = traceback.extract_tb(e.__traceback__)
+            where = next((f'{fr.filename.split("/navis/")[-1]}:{fr.lineno}' for fr in reversed(tb) if '/navis/' in fr.filename), '?')
+            if where == '?':
+                raise              # not raised inside navis: a harness bug
+            ctx.oracle(False, f'{kind}: navis raised {type(e).__name__}: {str(e)[:80]} at {where} {("[" + be + "]") if be else ""}', case)
+    return run_case
+
+
+RUNNERS = {k: guarded(k, f) for k, f in {'dist': case_dist, 'segments': case_segments, 'geox': case_geox, 'point': case_point,
+                                         'adjx': case_adjx, 'cablex': case_cablex, 'hist': case_hist, 'segx': case_segx,
+                                         'mesh': case_mesh}.items()}
+
+
+def exhaustive_rows(nmax, zero=False):
+    """every forest shape with <= nmax nodes (parent index < child index), unit 3-4-5 steps or coincident nodes"""
+    for n in range(1, nmax + 1):
+        for par in itertools.product(*[range(-1, i) for i in range(n)]):
+            rows = [dict(id=i, parent=par[i], x=0, y=0, z=0) for i in range(n)]
+            for i in range(n):
+                if par[i] >= 0:
+                    p = rows[par[i]]
+                    if zero and i % 2 == 0:
+                        rows[i]['x'], rows[i]['y'], rows[i]['z'] = p['x'], p['y'], p['z']
+                    else:
+                        rows[i]['x'], rows[i]['y'], rows[i]['z'] = p['x'] + 3, p['y'] + 4 * ((i % 2) * 2 - 1), p['z']
+                else:
+                    rows[i]['x'] = 40 * i
+            yield rows
+
+
+def nontrivial(case):
+    return len(case.get('rows', [])) >= 3 or case.get('cells', 0) >= 1
 
 
 def run(ctx, be=None):
     ctx.extra['rule'] = ('forests from harness/gen.py with integer edge lengths (checked by the driver per case); a case = (forest, '
-                         'directed, weight, limit, from_) or (forest, segments); non-trivial when ≥ 3 nodes; limits are chosen among '
-                         'attainable path sums so that `distance == limit` occurs')
+                         'directed, weight, limit, from_) or (forest, segments) or one of the second-pass kinds (geox: option forms; point: '
+                         'dist_between / distal_to / dist_to_root forms; adjx; cablex; hist: operation history on warm caches; segx; mesh); '
+                         'non-trivial when ≥ 3 nodes; limits are chosen among attainable path sums so that `distance == limit` occurs')
+    import time
+    timings = {}
     for kind, case in gen_cases(ctx):
-        ctx.case(dict(case, kind=kind), nontrivial=len(case['rows']) >= 3)
+        ctx.case(dict(case, kind=kind), nontrivial=nontrivial(case))
         m = case['meta']
+        ctx.count('kind', kind)
         ctx.count('shape', m['shape']); ctx.count('labeling', m['labeling']); ctx.count('order', m['order'])
+        t0 = time.time()
         RUNNERS[kind](ctx, case, be)
+        timings[kind] = timings.get(kind, 0.0) + time.time() - t0
+    ctx.extra['timings_s'] = {k: round(v, 1) for k, v in timings.items()}
+    ctx.extra['streams'] = sorted(RUNNERS)
+    ctx.extra['assumptions'] = ['scipy csgraph.dijkstra(limit=) / navis-fastcore / igraph / networkx shortest-path routines compute what their '
+                                'documentation says (modelled, compared on every case, not verified)',
+                                'node_label_sorting (the row order of sort=True) is outside the property: any permutation of the ids is accepted']
+    # errors that do not depend on the forest
+    x = G.to_neuron([dict(id=1, parent=-1, x=0, y=0, z=0), dict(id=2, parent=1, x=3, y=4, z=0)])
+    case_geox_errors(ctx, x, dict(kind='geox_errors', rows=[]), '')
+    ctx.corr(ctx.ask('c05x.shapes'), '1 1 1 1 1', 'declarative facts of the point queries / edge weights / cached views / _break_segments / adjacency', dict(kind='shapes'))
+    ctx.corr(ctx.ask('c05x.sentinel -1,0,7'), 'inf,0,7', 'sentinel decoding of the fastcore branch', dict(kind='shapes'))
     if be is None:
         # the definitions must hold whichever back-end computes them: a sample under the Python paths
         from .backends import backend, available
@@ -247,9 +1052,35 @@ def run(ctx, be=None):
                 continue
             with backend(b):
                 for kind, case in gen_cases(ctx, ctx.budget(25, 400)):
-                    ctx.case(dict(case, kind=kind, be=b), nontrivial=len(case['rows']) >= 3)
+                    ctx.case(dict(case, kind=kind, be=b), nontrivial=nontrivial(case))
                     ctx.count('backend_sample', b)
                     RUNNERS[kind](ctx, case, b)
+        # the ordering of zero-length segments / isolated nodes is free: no alarm under any back-end
+        rz = random.Random(f'zeroseg-{ctx.seed}')
+        for b in available():
+            with backend(b):
+                for _ in range(ctx.budget(25, 300)):
+                    zr, zm = gen_zeroseg(rz)
+                    case = dict(rows=zr, warm=None, meta=zm)
+                    ctx.case(dict(case, kind='segments', be=b), nontrivial=True)
+                    RUNNERS['segments'](ctx, case, b)
+        if not ctx.quick():
+            # exhaustive small scope: every forest shape with <= 5 nodes (positive and coincident steps), every back-end
+            for b in available():
+                with backend(b):
+                    for zero in (False, True):
+                        for rows in exhaustive_rows(5, zero):
+                            ids = [rw['id'] for rw in rows]
+                            meta = dict(shape='exhaustive', n=len(rows), labeling='zero', order='parent_first')
+                            c1 = dict(rows=rows, warm=None, meta=meta)
+                            ctx.case(dict(c1, kind='segments', be=b), nontrivial=len(rows) >= 3)
+                            RUNNERS['segments'](ctx, c1, b)
+                            if not zero:
+                                c2 = dict(rows=rows, directed=len(rows) % 2 == 0, weighted=True, limit=3 if len(rows) % 3 == 0 else None,
+                                          **{'from': None}, seed=len(rows), warm=None, meta=meta)
+                                ctx.case(dict(c2, kind='dist', be=b), nontrivial=len(rows) >= 3)
+                                RUNNERS['dist'](ctx, c2, b)
+                            ctx.count('exhaustive', b)
 
 
 def replay(ctx, rp):
@@ -258,5 +1089,9 @@ def replay(ctx, rp):
     from .backends import backend
     import contextlib
     cm = backend(case['be']) if case.get('be') else contextlib.nullcontext()
+    if case.get('kind') not in RUNNERS:
+        with cm:
+            run(ctx)
+        return
     with cm:
         RUNNERS[case['kind']](ctx, {k: v for k, v in case.items() if k not in ('kind', 'be')}, case.get('be'))
